@@ -14,22 +14,47 @@
                    plain_results (every member's message at its own index), single_at (one message
                    at its index), all_plain ms (no member watches its context). *)
 From SC Require Import Base.Prelude Group.Exec Group.C17Judge Group.ExecLemmas Group.ExecProofs
-  Group.ContractProofs Group.ExecProc Group.ExecProcProofs.
+  Group.ExecAwareProofs Group.ContractProofs Group.ExecProc Group.ExecProcProofs.
 
-(* The model equals the contract for EVERY member count, outcome vector and completion order.
-   _partial: for the strategies built on ExecuteUpTo (All, Most, Any, Unspecified, ExecuteUpTo
-   itself) the members are assumed not to watch their context — which is the quantifier of the
-   property statement ("any mix of successes and failures completing in any order").  ExecuteOne /
-   Fast / Race are covered with cancellation-aware members too.  Missing: ExecuteUpTo with
-   cancellation-aware members (they return a context error once the budget is exceeded); that case
-   is compared with the contract by the correspondence run only (exhaustive for n <= 4, random to 8). *)
-Theorem C17_model_meets_contract_partial : forall a ms order,
-  is_perm order (List.length ms) -> (upto_api a = true -> all_plain ms) ->
-  exec a ms order = contract a ms order.
-Proof. exact exec_meets_contract. Qed.
-Print Assumptions C17_model_meets_contract_partial.
+(* The model equals the contract for EVERY API, member count, outcome vector, awareness (members that
+   ignore their context and members that return a context error as soon as it is cancelled, in any
+   mix) and completion order. *)
+Theorem C17_model_meets_contract : forall a ms order,
+  is_perm order (List.length ms) -> exec a ms order = contract a ms order.
+Proof. exact exec_meets_contract_full. Qed.
+Print Assumptions C17_model_meets_contract.
 
-(* ExecuteUpTo, any budget k: results at the members' own indices; fails exactly when more than
+(* ExecuteUpTo (hence All / Most / Any) with cancellation-aware members, spelled out.
+   The outcome is decided by the members' OWN outcomes: the call fails exactly when more than
+   max(k,0) members fail by themselves, and the error returned is the first failure observed in
+   completion order — never a context error, because the context is only cancelled after that
+   failure.  decision_step c: c is the first step at which the failures so far exceed the budget.
+   At step c the context is cancelled; every aware member that had not finished by then (position
+   >= c in the order) sees ctx.Done at step c and returns its context error: its result slot is nil,
+   it counts as one more failure but changes neither the outcome nor the returned error.  Every other
+   member's message is at its own index — those that finished before c and the context-ignoring
+   ones that finish after c.  Without a decision step nothing is cancelled before the return. *)
+Theorem C17_upto_contract_aware : forall k ms order, is_perm order (List.length ms) ->
+  let x := exec (AUpTo k) ms order in
+  let n := List.length ms in
+  exists res err,
+    x_ret x = RSlice res err /\ List.length res = n /\
+    (err <> 0 <-> Z.max k 0 < nfails ms (members ms)) /\
+    (err <> 0 -> exists i, first_in (failed ms) order i /\ err = zi i) /\
+    x_calls x = all_calls ms /\ x_leak x = 0 /\
+    (forall c, decision_step k ms order c ->
+       x_cancel x = Z.of_nat c /\
+       forall j, (j < n)%nat ->
+         if aware_at ms j && (c <=? pos j order)%nat
+         then nth j res 0 = 0 /\ nth j (x_saw x) 0 = Z.of_nat c
+         else nth j res 0 = msg_of j (out_at ms j) /\ nth j (x_saw x) 0 = -1) /\
+    ((forall c, (1 <= c <= n)%nat -> ~ Z.max k 0 < nfails ms (firstn c order)) ->
+       res = plain_results ms /\ (ms <> [] -> x_cancel x = Z.of_nat n) /\ x_retstep x = Z.of_nat n /\
+       forall j, (j < n)%nat -> nth j (x_saw x) 0 = -1).
+Proof. exact upto_props_aware. Qed.
+Print Assumptions C17_upto_contract_aware.
+
+(* ExecuteUpTo with members that ignore their context, any budget k: results at the members' own indices; fails exactly when more than
    max(k,0) members fail; the error is that of the first failing member in completion order; does not
    return before every member has (step n); every member is invoked; the context is cancelled at the
    first step at which the failures so far exceed the budget — i.e. as soon as the outcome is
@@ -153,16 +178,25 @@ Theorem C17_received_once : forall cap stop n s, reachable cap stop n s ->
 Proof. exact received_once. Qed.
 Print Assumptions C17_received_once.
 
+(* the step discipline of the harness (one member returns at a time, and only when no other step is
+   enabled) makes the order of receipt equal the order of release: what the caller has received is a
+   prefix of the release order, and whenever the process is quiescent again with the caller still in
+   its loop it has received exactly the members released so far, in that order *)
+Theorem C17_release_order_is_receive_order : forall cap stop n l s, hrun cap stop n l s ->
+  (exists rest, l = p_recvd s ++ rest) /\
+  (quiescent cap stop s -> p_listening s = true -> p_recvd s = l).
+Proof. exact release_order_is_receive_order. Qed.
+Print Assumptions C17_release_order_is_receive_order.
+
 (* the model satisfies the property predicate on every guarded input, and so does every
    observation that agrees with the model *)
 Theorem C17_model_ok : forall a ms order,
-  perm_b order (List.length ms) = true -> (upto_api a = true -> plain_b ms = true) ->
-  C17_ok (KRun a ms order (exec a ms order)) = true.
+  perm_b order (List.length ms) = true -> C17_ok (KRun a ms order (exec a ms order)) = true.
 Proof. exact model_ok. Qed.
 Print Assumptions C17_model_ok.
 
 Theorem C17_judge_sound : forall a ms order obs,
-  C17_guard (KRun a ms order obs) = true -> (upto_api a = true -> plain_b ms = true) ->
+  C17_guard (KRun a ms order obs) = true ->
   agrees (KRun a ms order obs) = true -> C17_ok (KRun a ms order obs) = true.
 Proof. exact judge_sound. Qed.
 Print Assumptions C17_judge_sound.
@@ -182,13 +216,6 @@ Theorem C17_goroutines_end_v0_refuted :
   x_leak (exec_v0 AFast [mkM Ok false; mkM Ok false; mkM Ok false] [0; 1; 2]%nat) = 3 /\
   x_leak (exec_v0 ARace [mkM Fail false; mkM Ok false] [0; 1]%nat) = 2.
 Proof. split; [exact goroutines_end_v0_refuted|exact exec_v0_leaks]. Qed.
-
-(* NOT part of the claim (bounded): where C17_model_meets_contract_partial has its hypothesis —
-   ExecuteUpTo-based strategies with cancellation-aware members — model and contract coincide on
-   every group of up to 3 members of every kind, every order, budgets -1..3, strategies 0..7. *)
-Example C17_upto_aware_small_instances :
-  small_instances_agree 0 && small_instances_agree 1 && small_instances_agree 2 && small_instances_agree 3 = true.
-Proof. exact small_instances. Qed.
 
 (* ---- non-vacuity ---- *)
 Example C17_nonvacuous_most :
@@ -214,6 +241,17 @@ Proof.
   cbv zeta. split; [apply perm_b_sound; reflexivity|]. split; [|reflexivity].
   exists [0%nat], [3; 1]%nat. split; [reflexivity|]. split; [|reflexivity].
   intros j [<-|[]]. reflexivity.
+Qed.
+
+Example C17_nonvacuous_upto_aware :
+  let ms := [mkM Ok true; mkM Fail false; mkM Ok false; mkM Fail true; mkM Ok true] in
+  let order := [2; 1; 4; 0; 3]%nat in
+  is_perm order (List.length ms) /\ decision_step 0 ms order 2 /\
+  exec (AExecute 1) ms order = mkRes (RSlice [0; 0; 3; 0; 0] 2) [0; 1; 2; 3; 4] 2 2 [2; -1; -1; 2; 2] 0.
+Proof.
+  cbv zeta. split; [apply perm_b_sound; reflexivity|]. split; [|reflexivity].
+  split; [simpl; lia|]. split; [reflexivity|].
+  intros [|[|c']] Hc; try lia. vm_compute. discriminate.
 Qed.
 
 Example C17_nonvacuous_goroutines :
